@@ -50,9 +50,10 @@ def amSet {β : Type} : List (Nat × β) → Nat → β → List (Nat × β)
   | [], k, v => [(k, v)]
   | (k', v') :: l, k, v => if k' = k then (k, v) :: l else (k', v') :: amSet l k v
 
+/-- Go `delete(m, k)`: no entry with key `k` remains -/
 def amDel {β : Type} : List (Nat × β) → Nat → List (Nat × β)
   | [], _ => []
-  | (k', v') :: l, k => if k' = k then l else (k', v') :: amDel l k
+  | (k', v') :: l, k => if k' = k then amDel l k else (k', v') :: amDel l k
 
 structure Orphan where
   tx : Tx
